@@ -1124,7 +1124,7 @@ def check_relations(s, ch, K, exact_power, kind, want_filters=True):
             return 'power', 'user %d: ||full_F||^2=%r > P=%r' % (k, pw, P[k])
         if exact_power and abs(pw - P[k]) > 1e-11 * P[k]:
             return 'power', 'user %d: ||full_F||^2=%r != P=%r' % (k, pw, P[k])
-        if not mat_close(fF[k], np.asarray(F[k]) * fro(fF[k]), 1e-7):
+        if not mat_close(fF[k], np.asarray(F[k]) * fro(fF[k]), 1e-9):
             return 'direction', 'user %d: full_F is not a positive multiple of F' % k
     if not want_filters:
         return None
